@@ -2,7 +2,7 @@
    subscriber (every fault plan, every request), and that subscriber's grant has J unless
    the request is the pattern of finding banned-user-attached (stale_ban_sub). *)
 From Coq Require Import ZArith NArith List Bool Lia.
-From Tinode Require Import Base.Util Pure.Acs Sys.Topic Sys.TopicTac Sys.TopicFrame Sys.TopicMarks Sys.TopicAcl Sys.TopicAclProofs Sys.TopicAclInv.
+From Tinode Require Import Base.Util Pure.Acs Sys.Topic Sys.TopicTac Sys.TopicFrame Sys.TopicMarks Sys.TopicAclC07 Sys.TopicAclC07Proofs Sys.TopicAclC07Inv.
 Import ListNotations.
 Open Scope Z_scope.
 
